@@ -38,6 +38,14 @@ type c05DispObs struct {
 	Errs     int
 	Replied  bool
 	ModeSw   bool
+	Close    gen.CloseResult
+}
+
+// c05Report records a violation the moment it is observed, before any cleanup.
+type c05Report func(sig string, extra map[string]any)
+
+func c05PanicSig(branch, p, stack string) string {
+	return "C05:dispatch|panic|branch=" + branch + "|" + c05NumRe.ReplaceAllString(c05Clip(p, 60), "N") + "|at=" + stack
 }
 
 var c05NumRe = regexp.MustCompile(`[0-9]+`)
@@ -81,13 +89,25 @@ func c05NewNode(t *testing.T) *miniNode {
 }
 
 // c05Serve plays the adapter's read loop for one finite inbound stream.
-func c05Serve(n *miniNode, data []byte) (obs c05DispObs) {
+func c05Serve(n *miniNode, data []byte, report c05Report) (obs c05DispObs) {
 	c, err := n.Connect("")
 	if err != nil {
 		obs.Panic = "harness: connect failed: " + err.Error()
 		return
 	}
-	defer c.CloseByPeer()
+	defer func() {
+		// what adapter.cleanupConnection does, on its own goroutine: after a panic that
+		// unwound through a held lock it can block forever (decided from goroutine dumps)
+		obs.Close = gen.CloseAsync(c.CloseByPeer, 300*time.Millisecond, 20*time.Second)
+		if obs.Close.Hung {
+			sig := "C05:dispatch|close-hangs"
+			if obs.Panic != "" {
+				sig = "C05:dispatch|close-hangs-after-panic"
+			}
+			report(sig, map[string]any{"after_panic": obs.Panic, "closer_state": obs.Close.State, "closer_parked_at": obs.Close.Frames,
+				"decided_by": "cleanup goroutine in the same lock wait with identical stack in 3 dumps 100 ms apart"})
+		}
+	}()
 	conn, ok := n.SM.GetConnection(c.ConnID)
 	if !ok || conn == nil || conn.Stream == nil {
 		obs.Panic = "harness: accepted connection has no stream"
@@ -107,6 +127,7 @@ func c05Serve(n *miniNode, data []byte) (obs c05DispObs) {
 					obs.Panic = fmt.Sprint(e)
 					obs.Stack = c05Frames(string(debug.Stack()))
 					obs.PanicPkt = "decode"
+					report(c05PanicSig("decode", obs.Panic, obs.Stack), map[string]any{"panic": obs.Panic, "packets_decoded": obs.Decoded})
 					rerr = fmt.Errorf("decoder panic: %v", e)
 				}
 			}()
@@ -125,6 +146,7 @@ func c05Serve(n *miniNode, data []byte) (obs c05DispObs) {
 					obs.Panic = fmt.Sprint(e)
 					obs.Stack = c05Frames(string(debug.Stack()))
 					obs.PanicPkt = br
+					report(c05PanicSig(br, obs.Panic, obs.Stack), map[string]any{"panic": obs.Panic, "packets_decoded": obs.Decoded})
 				}
 			}()
 			herr = n.SM.HandlePacket(&types.StreamPacket{ConnectionID: c.ConnID, Packet: pkt, Timestamp: time.Now()})
@@ -185,7 +207,20 @@ func TestVerifC05Dispatch(t *testing.T) {
 		served++
 		done := make(chan c05DispObs, 1)
 		n := node
-		go func() { done <- c05Serve(n, in.Data) }()
+		report := func(sig string, extra map[string]any) {
+			m := map[string]any{}
+			for k, v := range det {
+				m[k] = v
+			}
+			for k, v := range extra {
+				m[k] = v
+			}
+			if strings.Contains(sig, "close-hangs") {
+				run.Count("close_hung_after_panic", 1)
+			}
+			run.Violation(sig, m)
+		}
+		go func() { done <- c05Serve(n, in.Data, report) }()
 		wd := time.NewTimer(50 * time.Second)
 		var o c05DispObs
 		select {
@@ -203,12 +238,15 @@ func TestVerifC05Dispatch(t *testing.T) {
 			run.Observe("harness_error", o.Panic)
 			return true
 		}
-		if o.Panic != "" {
-			sig := "C05:dispatch|panic|branch=" + o.PanicPkt + "|" + c05NumRe.ReplaceAllString(c05Clip(o.Panic, 60), "N") + "|at=" + o.Stack
-			det["panic"] = o.Panic
-			det["packets_decoded"] = o.Decoded
-			run.Violation(sig, det)
-			// locks may be held by the unwound call: continue on a new server
+		if !o.Close.Returned && !o.Close.Hung {
+			run.Count("cleanup_undecided", 1) // neither returned nor classified as blocked: inconclusive
+			stopped = true
+			return false
+		}
+		if o.Panic != "" || o.Close.Hung {
+			// (violations were recorded when observed) locks may be held by the unwound
+			// call: continue on a new server
+			run.Count("violating_inputs", 1)
 			node = c05NewNode(t)
 			run.Count("nodes_recycled", 1)
 		}
@@ -248,6 +286,10 @@ func TestVerifC05Dispatch(t *testing.T) {
 			if in.Family != "types" && in.Family != "bodies" || served%400 == 0 {
 				run.Sample(map[string]any{"family": in.Family, "sub": in.Sub, "len": len(in.Data), "branches": o.Branches, "handler_errors": o.Errs, "replied": o.Replied})
 			}
+		}
+		if run.Counter("close_hung_after_panic") >= 4 || run.Counter("violating_inputs") >= 300 {
+			run.Count("stopped_early_after_violations", 1)
+			return false
 		}
 		return run.Violations() < 20
 	})
